@@ -465,9 +465,9 @@ func runC10(sc *Scenario, keepLog bool) *RunReport {
 		b, okB := seen[fmt.Sprintf("%s|%v", op.Doc, true)]
 		if okA && okB && a.out.panic == "" && b.out.panic == "" {
 			if miss, ok := subset(a.out.errors, b.out.errors); !ok {
-				site := "errors+" + quotedRe.ReplaceAllString(miss, "_")
+				site := "errors+" + msgTemplate(miss)
 				if templateIn(miss, b.out.errors) {
-					site = "errors~" + quotedRe.ReplaceAllString(miss, "_")
+					site = "errors~" + msgTemplate(miss)
 				}
 				viol(i, op, "not-monotone", site, "every error reported when stopping early is also reported with continue-on-errors", miss,
 					fmt.Sprintf("error reported with continue-on-errors=false (validation #%d) is missing with continue-on-errors=true (validation #%d)", a.op, b.op))
@@ -610,7 +610,7 @@ func diffClass(a, b []string) string {
 	if len(only) == 0 {
 		return ""
 	}
-	tmpl := func(s string) string { return quotedRe.ReplaceAllString(s, "_") }
+	tmpl := msgTemplate
 	for i := range only {
 		only[i] = tmpl(only[i])
 	}
@@ -636,13 +636,23 @@ func diffClass(a, b []string) string {
 
 // templateIn tells whether set carries a message with the same template as msg.
 func templateIn(msg string, set []string) bool {
-	t := quotedRe.ReplaceAllString(msg, "_")
+	t := msgTemplate(msg)
 	for _, x := range set {
-		if quotedRe.ReplaceAllString(x, "_") == t {
+		if msgTemplate(x) == t {
 			return true
 		}
 	}
 	return false
+}
+
+// msgTemplate: a message with its quoted names, lists and numbers blanked. What follows "First found:" is the text of
+// whichever low-level error came first ("object has no key _" / "nil value has no field _" ...): it belongs to the
+// variable part of that message, not to its template.
+func msgTemplate(s string) string {
+	if i := strings.Index(s, "First found:"); i >= 0 {
+		s = s[:i+len("First found:")] + " _"
+	}
+	return quotedRe.ReplaceAllString(s, "_")
 }
 
 func init() {
